@@ -8,7 +8,7 @@ HOOKS = {
     "add_only": True,
 }
 ENGINES = [
-    {"name": "kani", "path": "bin/check", "serves_properties": ["C10"],
+    {"name": "kani", "path": "bin/check", "serves_properties": ["C04", "C06", "C07", "C10", "C11", "C12", "C13", "C14", "C15", "C16", "C17", "C18"],
      "kind_free_text": "Kani 0.68 / CBMC 6.11 harness crate (kani/src) built against /repo's crates on every run; bounded stand-in and counterexample generator; replay binary kh-replay re-runs a counterexample on the stable toolchain"},
     {"name": "verus", "path": "bin/check", "serves_properties": ["C01", "C02", "C03", "C04", "C05"],
      "kind_free_text": "contract templates (specs/*.vrs) whose holes are filled with the real items/function bodies of /repo by the vx extractor on every run; Verus 0.2026.09.13 (Z3) discharges every obligation"},
@@ -69,16 +69,90 @@ CLAIMS["C05"] = {
 KANI_NOTE = ("Bounded: CBMC explores every execution of the real compiled crates (including rand 0.9) within the stated collection-size bound, for all "
              "element values and all random streams (each word handed to rand is an unconstrained symbolic value; after the stated number of symbolic "
              "words the stream continues with all-ones). Not a proof for larger sizes. Uniformity of rand's words / its sampling algorithms is assumed.")
-CLAIMS["C10"] = {
-    "category": "model_checking", "engine": "kani",
-    "technique": "bounded stand-in: Kani/CBMC harnesses on the real compiled crates with a symbolic random stream, cover! witnesses for every 'can occur' clause, counterexamples replayed on the stable toolchain",
-    "text": "For genomes up to length 3 (quick) / 5 (thorough), for all gene values and all random streams: TwoPointXo and UniformXo on Vec<T> (array and tuple forms) and on "
-            "Bitstring give a child of the parents' length whose gene at each position comes from one parent at that position; two-point takes one contiguous segment from the "
-            "second parent and every segment [i,j) (including both ends, the whole genome and the empty one) is reachable; uniform decides every position with its own random word "
-            "and every origin pattern is reachable; different lengths give DifferentGenomeLength(a,b); Bitstring::crossover_gene/segment return Err (no panic) exactly when the "
-            "index/range leaves either genome and otherwise swap exactly the addressed genes. No panic is reachable. Labelled bounded; not counted as proved.",
-    "note": KANI_NOTE, "design_ref": "DESIGN.md §5, §6 C10",
-}
+KANI_TECH = "bounded stand-in: Kani/CBMC harnesses on the real compiled crates, symbolic random stream, cover! witnesses for 'can occur' clauses, counterexamples replayed on the stable toolchain"
+def kclaim(text, note=KANI_NOTE, ref="DESIGN.md §5, §6", tech=KANI_TECH, cat="model_checking"):
+    return {"category": cat, "engine": "kani", "technique": tech, "text": text + " Labelled bounded; not counted as proved.", "note": note, "design_ref": ref}
+
+CLAIMS["C10"] = kclaim(
+    "For genomes up to length 3 (quick) / 5 (thorough), for all gene values and all random streams: TwoPointXo and UniformXo on Vec<T> (array and tuple forms) and on "
+    "Bitstring give a child of the parents' length whose gene at each position comes from one parent at that position; two-point takes one contiguous segment from the "
+    "second parent and every segment [i,j) (including both ends, the whole genome and the empty one) is reachable; uniform decides every position with its own random word "
+    "and every origin pattern is reachable; different lengths give DifferentGenomeLength(a,b); Bitstring::crossover_gene/segment return Err (no panic) exactly when the "
+    "index/range leaves either genome and otherwise swap exactly the addressed genes. No panic is reachable.")
+CLAIMS["C06"] = kclaim(
+    "For populations of 0..=3 (thorough 5) individuals with arbitrary i64 fitness (ties, duplicates, all-equal included) and all random streams: Best, Worst, Random, "
+    "Tournament (every size 1..=N+1), Lexicase (empty population, missing case result, single individual, 2 individuals x 1 case), Weighted, WeightedPair, DynWeighted, "
+    "Box<dyn DynSelector> and &S return Ok(r) with ptr::eq(r, &population[i]) for some i, or exactly the documented error under exactly the documented condition; no panic or "
+    "unreachable!() is reachable.",
+    note=KANI_NOTE + " Lexicase beyond one considered case is outside CBMC's reach (out of memory at 2 cases, DESIGN §6 C08).")
+CLAIMS["C07"] = kclaim(
+    "Best/Worst return a maximal/minimal individual (population <= 3, thorough 5; all i64 values). Tournament, for every random stream: the winner is at least as good as "
+    "k-1 OTHER members (refutes sampling with replacement and min-for-max), k = population size gives a maximal individual, k = 1 reaches every individual, and with distinct "
+    "values the second-worst individual can win a binary tournament.",
+    note=KANI_NOTE + " NOT decided: that every k-subset is equally likely (the exact law C(r-1,k-1)/C(n,k)) — that is rand's choose_multiple contract, assumed; what is "
+         "checked is that the real select() passes the whole slice and k to the real choose_multiple and takes the max of what it yields.")
+CLAIMS["C11"] = kclaim(
+    "WithRate / WithOneOverLength on Vec<T: Not> (position-tagged genes) and Bitstring, lengths <= 3 (thorough 5), all rates in [0,2], all random streams: same length, every "
+    "gene stays in place and is unchanged or negated, rate 0 = identity, rate >= 1 flips all, genes flip independently (both single-flip patterns reachable), "
+    "WithOneOverLength == WithRate(1/len) on the same stream. Umad: output = surviving parent genes in order with at most one generator-drawn gene after each position; "
+    "empty parent gives <= 1 gene (0 with new_without_empty; empty rate respected); rates 0 = identity, deletion 1 = empty, (add 1, del 0) = each gene followed by exactly one new.",
+    note=KANI_NOTE + " Umad::mutate is instantiated at a harness-side array-backed Linear genome and parent length 1 (thorough 2): std's FlatMap/Flatten make CBMC need "
+         "~400k symbolic-execution steps per gene; Vector<T>/Plushy's FromIterator/IntoIterator are one-line delegations to Vec and are not exercised by that harness. "
+         "Rates for Umad come from {0,.25,.5,.875,1}.")
+CLAIMS["C12"] = kclaim(
+    "Preimage characterisation on a constant stream (every draw sees the same word w, so the result does not depend on draw order): WithRate flips a gene iff "
+    "uniform_f32(w) < rate, for all words and all rates; Umad keeps a gene iff Bernoulli(deletion_rate) rejects w and inserts iff Bernoulli(addition_rate) accepts and "
+    "Bernoulli(deletion_rate) rejects (new genes subject to deletion); WithOneOverLength applies exactly 1/len; UniformXo uses one fair word per position; BoolGenerator / "
+    "random_with_probability set a bit iff w < p*2^64; GeneGenerator yields Close iff uniform_f32(w) < close_probability and otherwise exactly one draw from the instruction "
+    "distribution, default close probability 1/(n+1). The measure of each accepted word set is the configured probability.",
+    note=KANI_NOTE + " Full-domain in the random word; f64 probabilities come from {0,.25,.5,.875,1} (a symbolic f64 makes CBMC bit-blast rand's p*2^64). The expected-size "
+         "identity del = add/(1+add) is arithmetic over these characterisations and is not machine-checked.")
+CLAIMS["C13"] = kclaim(
+    "Complete (loop-free, all u32): WeightedPair::new and with_item_and_weight chaining return WeightSumOverflow(a,b) exactly when the total does not fit in 32 bits — also when "
+    "the overflow happened earlier in a Result chain — and otherwise expose the exact sum. For all random words and representative weights: a pair delegates to exactly one member, "
+    "member a exactly on the words below wa/(wa+wb)*2^64 (checked against exact integer arithmetic up to f64 rounding), zero-weight members are never used, all-zero gives ZeroWeight; "
+    "left- and right-nested triples decide with outer coin (sum of the nested pair)/total and inner coin w_i/(pair sum), so member i is used on a word set of measure w_i/sum. "
+    "DynWeighted (3 members): exactly one member is used, never a zero-weight one, all-zero gives ZeroWeightSum.",
+    note=KANI_NOTE + " Proportionality of DynWeighted is rand's choose_weighted contract (assumed). Weights for the threshold harnesses come from "
+         "{0,1,2,3,1000,2^31,u32::MAX-1,u32::MAX}.")
+CLAIMS["C14"] = kclaim(
+    "Probe operators log (id, input seen, word drawn) and fail on command. For all inputs, all random words and every failure position: Then feeds the first result to the second, "
+    "And gives both the same input, Map maps pair/array/Vec elements in order, RepeatWith applies N times to copies — each part draws the next word of the stream, the first failure "
+    "stops the pipeline (log length and stream position equal the number of parts run), the error identifies the part/element (observed through Display and Error::source, the "
+    "error types being private), Identity/Constant/Mutate/Recombine/GenomeScorer (by value and by reference) add nothing. A composition nested two deep in every position follows "
+    "the left-to-right schedule.",
+    note=KANI_NOTE + " 'Nested to any depth' is argued from parametricity of each combinator in its parts; depth 2 is what is machine-checked. Vec length <= 3, N in {2,3}.")
+CLAIMS["C15"] = kclaim(
+    "Complete for i64 payloads (loop-free, all values): the compiled cmp / partial_cmp / == / < <= > >= of Score (derived), Error (hand-written reverse), TestResult (None exactly "
+    "across kinds), TestResults and EcIndividual (exactly as their totals / test results) — ascending for scores, descending for errors, operators mutually consistent. "
+    "IndividualGenerator::sample and GenomeScorer::apply carry exactly the genome produced and the scorer's answer for that genome. TestResults::from / from_iter: results kept in "
+    "order, total == sum (0, 1 results quick; 3, 5 thorough).",
+    note=KANI_NOTE + " Lawfulness (transitivity etc.) for a generic payload T follows from T's own total order; checked here at T = i64.")
+CLAIMS["C16"] = kclaim(
+    "Self-composition: Tournament, Random, WeightedPair, Lexicase, TwoPointXo, UniformXo, WithRate (Vec and Bitstring), Bitstring::random*, OneOfCloning, collection generator, "
+    "IndividualGenerator (thorough: Umad) are each run twice from the same symbolic stream: equal results and equal generator positions; a second call on the same operator value "
+    "repeats the first (no hidden state). Any foreign entropy source (getrandom, clock) reachable from these operations is reported as a failed obligation. Push evaluation being a "
+    "function of program, inputs and limits is the Verus theorem of C01 (run_to_completion == run_spec(view)).",
+    note=KANI_NOTE + " Covers the operations listed, not 'all operators in the three crates'.")
+CLAIMS["C17"] = kclaim(
+    "For each of the five erasable traits (DynSelector, DynMutator, DynRecombinator, DynOperator, DynChildMaker) and each of the 7 pointer kinds (&, &mut, Box, Rc, Arc, cell::Ref, "
+    "cell::RefMut) x 4 auto-trait sets (-, Send, Sync, Send+Sync) generated by dyn_ref_impls — 28 flavours per trait, all instantiated — a probe with symbolic behaviour (draws 0..=2 "
+    "words, fails on command) gives through the erased form the same element / value, the same error and the same stream position as the concrete call; with the default erased "
+    "error type the same error is recovered by downcast.",
+    note=KANI_NOTE + " Universal over wrapped implementations only by parametricity of the forwarding code.")
+CLAIMS["C18"] = kclaim(
+    "collection::Generator (owning and borrowing) yields exactly `size` elements, element i being the i-th draw (sizes 0..=3, thorough 6); Bitstring::random*, Plushy and population "
+    "generators have exactly the configured size. OneOfCloning, ChooseCloning, Choose through all IntoDistribution / ToDistribution flavours for Vec, arrays and slices and "
+    "uniform_distribution_of!: empty source => Err(EmptySlice) at construction, num_choices == len, every sample is a member (borrowing forms: pointer-equal to a member), first and "
+    "last member reachable.",
+    note=KANI_NOTE + " Equal probability of members is rand's Uniform<usize> / Choose contract (assumed).")
+# checks that exist but are not yet validated on the unchanged tree are not claimed
+PENDING = {"C11", "C12", "C18", "C19"}
 NOT_APPLICABLE = {
+    "C08": "Kani cannot carry Lexicase::select beyond ONE considered case (out of memory at two), which decides nothing about filtering by randomly ORDERED cases; the Verus proof sketched in DESIGN.md §6 (loop invariants over the candidate set, shuffle as an assumed permutation contract) has not been completed. What is checked about lexicase (membership, errors, single-case filtering, tie reachability) is claimed under C06 only (DESIGN.md §13).",
+    "C11": "check being validated in this session (Kani harnesses exist: kani/src/c11.rs)",
+    "C12": "check being validated in this session (Kani harnesses exist: kani/src/c11.rs, c18.rs)",
+    "C18": "check being validated in this session (Kani harnesses exist: kani/src/c18.rs)",
+    "C19": "check being validated in this session (compile-time snippets + Kani harnesses on the real builder exist: snippets/c19, kani/src/c19.rs)",
     "C09": "generation step: rayon worker threads and the thread-local OS-seeded rand::rng() inside par_next/serial_next are outside both installed verifiers (Kani: no threads/getrandom; Verus: no model); the remaining repository code is one collect::<Result<_,_>>() expression whose all-or-nothing behaviour is std's contract (DESIGN.md §7)",
 }
